@@ -49,7 +49,11 @@ def gen(rng, tier, no, wide=False):
             fl.append([k, sorted(rng.sample([0, 1, 2], rng.randint(1, 2)))])
         elif k == "timeRange":
             a = rng.choice(times)
-            fl.append([k, a, rng.choice([t for t in times if t >= a])])
+            b = rng.choice([t for t in times if t >= a])
+            zs = [e["ts"] - t0 for e in xs if e["dur"] == 0 and e["ts"] - t0 >= a]
+            if zs and rng.random() < 0.35:
+                b = rng.choice(zs)          # the range ends exactly where a zero-duration event sits
+            fl.append([k, a, b])
         elif k == "name":
             n = rng.choice(names)
             pat = rng.choice(PATTERNS + [re.escape(n[: rng.randint(1, max(1, len(n)))]), re.escape(n) + "$"])
